@@ -411,4 +411,9 @@ def _run(ck, tier):
                        "doubles are compared to 15 significant digits (relative 2e-14)",
                        "instances are built through the public API from the recipe emitted by TLC; the projection of the original "
                        "object must reproduce the recipe"]
+    # classes of the violations (the first 20 get a replay file each)
+    vc = collections.Counter((r.get("class"), r.get("kind"), r.get("field"), r.get("after"), r.get("session"), r.get("trait"), r.get("model")) for r, _ in ck.violations)
+    for k, n in sorted(vc.items(), key=lambda kv: -kv[1])[:40]:
+        log("   %5d x %s" % (n, k))
+    ck.cov["violation_classes"] = {str(k): n for k, n in vc.items()}
     return ck.finish()
